@@ -300,12 +300,13 @@ func genC20(p *pkgInfo, l *leanFile) {
 	if fd := p.funcs["storeTx"]; fd != nil {
 		ast.Inspect(fd.Body, func(n ast.Node) bool {
 			if c, ok := n.(*ast.CallExpr); ok {
+				st := paramOfType(fd, "Storage") // (whatever the storage parameter is called)
 				switch types.ExprString(c.Fun) {
-				case "s.Load":
+				case st + ".Load":
 					txToks = append(txToks, "load")
-				case "s.Store":
+				case st + ".Store":
 					txToks = append(txToks, "store")
-				case "s.Delete":
+				case st + ".Delete":
 					txToks = append(txToks, "delete")
 				}
 			}
